@@ -57,3 +57,9 @@ Theorem C16_merged_mark_step_same_tokens : forall s a b m doc da dab dm,
   DT s dm = DT s dab.
 Proof. exact merged_mark_step. Qed.
 Print Assumptions C16_merged_mark_step_same_tokens.
+
+(* ... so the merged step changes the size by the same amount as the two steps together *)
+Corollary C16_merged_step_same_size : forall s dm dab,
+  DT s dm = DT s dab -> frag_size s (node_content dm) = frag_size s (node_content dab).
+Proof. intros s dm dab H. rewrite <- !DT_length, H. reflexivity. Qed.
+Print Assumptions C16_merged_step_same_size.
